@@ -87,7 +87,7 @@ try:
                "functions of `src/nfc`, %d lines): %d functions have slices under the function translator (%d lines, %.0f %%), %d function "
                "bodies are in the exception-flow language, %d in the lock language, %d in the monitor language; %d functions (%.0f %%) are "
                "under at least one translator tie.  Everything else is reached only through the hand-written models and their "
-               "differential ties (11.3) or is not modelled (`clf/transport.py`, `llcp/sec.py`, `__main__.py`).\n" % (
+               "differential ties (11.3) or is not modelled (`llcp/sec.py`, `__main__.py`, the device discovery of `clf/transport.py`).\n" % (
                    tot["fns"], tot["lines"], tot["fnf"], tot["fn"], 100.0 * tot["fn"] / max(1, tot["lines"]), tot["exc"], tot["lock"],
                    tot["mon"], tot["anyt"], 100.0 * tot["anyt"] / max(1, tot["fns"])))
 except Exception as e:
